@@ -59,9 +59,9 @@ type Key struct {
 	Priv cryptotypes.PrivKey
 }
 
-func (k Key) Acc() sdk.AccAddress    { return sdk.AccAddress(k.Priv.PubKey().Address()) }
-func (k Key) Hex() common.Address    { return common.BytesToAddress(k.Priv.PubKey().Address()) }
-func (k Key) Val() sdk.ValAddress    { return sdk.ValAddress(k.Priv.PubKey().Address()) }
+func (k Key) Acc() sdk.AccAddress     { return sdk.AccAddress(k.Priv.PubKey().Address()) }
+func (k Key) Hex() common.Address     { return common.BytesToAddress(k.Priv.PubKey().Address()) }
+func (k Key) Val() sdk.ValAddress     { return sdk.ValAddress(k.Priv.PubKey().Address()) }
 func (k Key) Pub() cryptotypes.PubKey { return k.Priv.PubKey() }
 
 // EthKey derives an eth_secp256k1 key for (role, i).
